@@ -387,7 +387,7 @@ fn body(ch: &Ch) -> Run {
 
 pub fn prop(tier: Tier) -> Prop {
   let modes = match tier {
-    Tier::Quick => vec![Mode::Deviations(1), Mode::Deviations(2)],
+    Tier::Quick => vec![Mode::Deviations(1), Mode::Deviations(2), Mode::Deviations(3)],
     Tier::Thorough => vec![Mode::Deviations(2), Mode::Deviations(3), Mode::Deviations(4)],
   };
   Prop {
